@@ -219,8 +219,9 @@ def run(ctx) -> None:
     # controlled_by (lazy, may run any time): same discipline
     ccb = g.methods.get("_compute_controlled_by")
     if ccb is not None:
-        t = src(ccb.node)
-        ok = "target in self._nodes" in t
+        from sa.pattern import solve
+
+        ok = bool(solve(["for _T in _G.targets: ...", "_T in self._nodes"], ccb.node))
         rep.add("C19.R3", f"{ccb.qname}:guard", ok, ccb.loc(), "controlled_by only records targets that are nodes" if ok else "controlled_by records targets that are not nodes")
 
     # ---- R4 ---------------------------------------------------------------------
@@ -249,20 +250,28 @@ def run(ctx) -> None:
     loops = [n for n in walk_local(vt.node) if isinstance(n, ast.For)]
     ok = len(loops) >= 2 and "nx_graph.edges(data=True)" in src(loops[0].iter) and "value_names" in src(loops[1].iter)
     rep.add("C19.R6", f"{vt.qname}:all-edges-all-values", ok, vt.loc(), "iterates every edge and every value name on it" if ok else "type validation does not iterate every value of every data edge")
-    miss = [n for n in walk_local(vt.node) if isinstance(n, ast.If) and " is None" in src(n.test) and any(isinstance(x, ast.Raise) for x in ast.walk(n))]
-    sides = {src(n.test).split(" ")[0] for n in miss}
-    ok = {"output_type", "input_type"} <= sides
-    rep.add("C19.R6", f"{vt.qname}:missing-annotation", ok, vt.loc(), "a missing annotation on either side is rejected" if ok else f"missing annotations are only rejected for {sorted(sides)}")
-    calls = [c for c in db.calls_in(vt) if "is_type_compatible" in call_names(db, c, vt)]
-    ok = len(calls) == 1 and [src(a) for a in calls[0].args] == ["output_type", "input_type"]
-    if ok:
-        gi = enclosing(calls[0], (ast.If,))
-        ok = gi is not None and isinstance(gi.test, ast.UnaryOp) and any(isinstance(x, ast.Raise) for x in ast.walk(gi))
-    # the two types come from the producer's output and the consumer's input for the same value
-    t = src(vt.node)
-    ok = ok and "source_node.get_output_type(value_name)" in t and "target_node.get_input_type(value_name)" in t
-    rep.add("C19.R6", f"{vt.qname}:compatibility-call", ok, vt.loc(), "incompatibility (producer output type vs consumer input type, in that order) raises" if ok else "is_type_compatible is not asked (output type, input type) for the edge's value, or its negative result does not raise")
+    from sa.pattern import find_all, solve
 
+    envs = solve(["_OT = _S.get_output_type(_V)", "_IT = _T.get_input_type(_V)", "is_type_compatible(_OT, _IT)"], vt.node)
+    miss_ok = compat_ok = False
+    for env in envs:
+        ot, it_ = src(env["_OT"]), src(env["_IT"])
+        sides = set()
+        for n in walk_local(vt.node):
+            if isinstance(n, ast.If) and any(isinstance(x, ast.Raise) for x in ast.walk(n)) and isinstance(n.test, ast.Compare) and isinstance(n.test.ops[0], ast.Is) and isinstance(n.test.comparators[0], ast.Constant) and n.test.comparators[0].value is None:
+                sides.add(src(n.test.left))
+        if {ot, it_} <= sides:
+            miss_ok = True
+        for c, _ in find_all("is_type_compatible(_OT, _IT)", vt.node, env):
+            gi = enclosing(c, (ast.If,))
+            if gi is not None and isinstance(gi.test, ast.UnaryOp) and isinstance(gi.test.op, ast.Not) and any(isinstance(x, ast.Raise) for x in ast.walk(gi)):
+                compat_ok = True
+        # producer side is the edge's source node, consumer side its target node
+        srcs = solve(["for _A, _B, _D in nx_graph.edges(data=True): ...", "_S = nodes[_A]", "_T = nodes[_B]"], vt.node)
+        if not any(src(e2["_S"]) == src(env["_S"]) and src(e2["_T"]) == src(env["_T"]) for e2 in srcs):
+            compat_ok = False
+    rep.add("C19.R6", f"{vt.qname}:missing-annotation", miss_ok, vt.loc(), "a missing annotation on either side is rejected" if miss_ok else "a missing annotation on the producer or consumer side is not rejected")
+    rep.add("C19.R6", f"{vt.qname}:compatibility-call", compat_ok, vt.loc(), "incompatibility (producer output type vs consumer input type, in that order) raises" if compat_ok else "is_type_compatible is not asked (output type of the edge's source, input type of its target) for the edge's value, or its negative result does not raise")
 
 def _ri(f: FuncInfo, r: ast.AST) -> int:
     rs = [n for n in walk_local(f.node) if isinstance(n, ast.Raise)]
